@@ -3,12 +3,13 @@ import RustCcModel.Proofs.CountsStep
 pointers in flight). Operations and frames are short chains of these. -/
 namespace RustCc
 open World
+variable {ex : Bool}
 
 theorem mem_stack_push' {w : World} {f g : Frame} (h : g ∈ (w.push f).stack) : g = f ∨ g ∈ w.stack := by
   simpa [World.push] using h
 
 /-- From "accessibility never appears" to the freshness clause. -/
-theorem acc_of_mono {w w' : World} {E : List Id} (h : CountsH w E)
+theorem acc_of_mono {w w' : World} {E : List Id} (h : CountsH ex w E)
     (hm : ∀ x, (w'.metas x).accessible = true → (w.metas x).accessible = true) :
     ∀ x, w.next ≤ x → (w'.metas x).accessible = false := by
   intro x hx
@@ -36,40 +37,41 @@ theorem initMeta_acc (w : World) (y x : Id) (hxy : x ≠ y) : ((w.initMeta y).me
   · rfl
   · simp [World.updMeta, World.upd, Metas.set, hxy]
 
-theorem CountsH.of_count {w : World} {E E' : List Id} (h : CountsH w E) (hc : ∀ x, E'.count x = E.count x) : CountsH w E' :=
-  ⟨fun x => by rw [hc]; exact h.le x, fun x hx => by rw [hc]; exact h.fresh x hx, h.frames, h.pcb, h.mfresh⟩
+theorem CountsH.of_count {w : World} {E E' : List Id} (h : CountsH ex w E) (hc : ∀ x, E'.count x = E.count x) : CountsH ex w E' :=
+  ⟨fun x => by rw [hc]; exact h.le x, fun hex x => by rw [hc]; exact h.ge hex x, fun x hx => by rw [hc]; exact h.fresh x hx, h.frames, h.pcb, h.mfresh⟩
 
 /-- Leaking pointers in flight (unwinding) keeps the invariant. -/
-theorem CountsH.forget {w : World} {E E' : List Id} (h : CountsH w E) (hc : ∀ x, E'.count x ≤ E.count x) : CountsH w E' :=
-  ⟨fun x => by have := h.le x; have := hc x; omega, fun x hx => by have := h.fresh x hx; have := hc x; omega, h.frames, h.pcb, h.mfresh⟩
+theorem CountsH.forget {w : World} {E E' : List Id} (h : CountsH ex w E) (hc : ∀ x, E'.count x ≤ E.count x) : CountsH false w E' :=
+  ⟨fun x => by have := h.le x; have := hc x; omega, (fun hex => nomatch hex), fun x hx => by have := h.fresh x hx; have := hc x; omega, h.frames, h.pcb, h.mfresh⟩
 
 /-- A change that touches neither pointers nor counts nor liveness. -/
-theorem CountsH.same {w w' : World} {E : List Id} (h : CountsH w E) (hr : ∀ x, refs w' x = refs w x)
+theorem CountsH.same {w w' : World} {E : List Id} (h : CountsH ex w E) (hr : ∀ x, refs w' x = refs w x)
     (hrc : ∀ x, (w'.heap x).rc = (w.heap x).rc)
     (hn : w'.next = w.next) (hst : ∀ f ∈ w'.stack, f ∈ w.stack) (hpc : ∀ x ∈ w'.pc, x ∈ w.pc ∨ x < w.next)
-    (hm : ∀ x, w.next ≤ x → (w'.metas x).accessible = false) : CountsH w' E :=
+    (hm : ∀ x, w.next ≤ x → (w'.metas x).accessible = false) : CountsH ex w' E :=
   ⟨fun x => by rw [hr, hrc]; exact h.le x,
+   fun hex x => by rw [hr, hrc]; exact h.ge hex x,
    fun x hx => by rw [hr]; exact h.fresh x (by rw [← hn]; exact hx),
    fun f hf i hi => by rw [hn]; exact h.frames f (hst f hf) i hi,
    fun x hx => by rw [hn]; rcases hpc x hx with h1 | h1; exact h.pcb x h1; exact h1,
    fun x hx => hm x (by rw [← hn]; exact hx)⟩
 
-theorem CountsH.congr {w w' : World} {E : List Id} (h : CountsH w E) (hH : w'.H = w.H) (hs : w'.stash = w.stash)
+theorem CountsH.congr {w w' : World} {E : List Id} (h : CountsH ex w E) (hH : w'.H = w.H) (hs : w'.stash = w.stash)
     (hst : w'.stack = w.stack) (hn : w'.next = w.next) (hheap : w'.heap = w.heap) (hpc : w'.pc = w.pc)
-    (hm : w'.metas = w.metas) : CountsH w' E :=
+    (hm : w'.metas = w.metas) : CountsH ex w' E :=
   h.same (fun x => refs_congr w w' x hH hs (by rw [hst]) hn (fun u _ => by rw [hheap])) (fun x => by rw [hheap])
     hn (fun f hf => by rw [← hst]; exact hf) (fun x hx => Or.inl (by rw [← hpc]; exact hx))
     (fun x hx => by rw [hm]; exact h.mfresh x hx)
 
-theorem CountsH.ret {w : World} {E : List Id} (h : CountsH w E) (r : Ret) : CountsH { w with ret := r } E :=
+theorem CountsH.ret {w : World} {E : List Id} (h : CountsH ex w E) (r : Ret) : CountsH ex { w with ret := r } E :=
   h.congr rfl rfl rfl rfl rfl rfl rfl
 
-theorem CountsH.emit {w : World} {E : List Id} (h : CountsH w E) (e : Event) : CountsH (w.emit e) E :=
+theorem CountsH.emit {w : World} {E : List Id} (h : CountsH ex w E) (e : Event) : CountsH ex (w.emit e) E :=
   h.congr rfl rfl rfl rfl rfl rfl rfl
 
 /-- Side-record updates: of an allocated object, or ones that never make a record accessible. -/
-theorem CountsH.updMeta {w : World} {E : List Id} (h : CountsH w E) (y : Id) (F : Meta → Meta)
-    (hy : y < w.next ∨ ∀ m : Meta, (F m).accessible = true → m.accessible = true) : CountsH (w.updMeta y F) E :=
+theorem CountsH.updMeta {w : World} {E : List Id} (h : CountsH ex w E) (y : Id) (F : Meta → Meta)
+    (hy : y < w.next ∨ ∀ m : Meta, (F m).accessible = true → m.accessible = true) : CountsH ex (w.updMeta y F) E :=
   h.same (fun x => rfl) (fun x => rfl) rfl (fun f hf => hf) (fun x hx => Or.inl hx)
     (fun x hx => by
       by_cases hxy : x = y
@@ -82,15 +84,15 @@ theorem CountsH.updMeta {w : World} {E : List Id} (h : CountsH w E) (y : Id) (F 
           | true => rw [World.updMeta_metas_same] at hacc; rw [hy _ hacc] at this; cases this
       · rw [World.updMeta_metas_other w y x F hxy]; exact h.mfresh x hx)
 
-theorem CountsH.raise {w : World} {E : List Id} (h : CountsH w E) : CountsH w.raise E := by
+theorem CountsH.raise {w : World} {E : List Id} (h : CountsH ex w E) : CountsH ex w.raise E := by
   unfold World.raise; split <;> exact h.congr rfl rfl rfl rfl rfl rfl rfl
 
-theorem CountsH.raiseLogged {w : World} {E : List Id} (h : CountsH w E) : CountsH w.raiseLogged E := by
+theorem CountsH.raiseLogged {w : World} {E : List Id} (h : CountsH ex w E) : CountsH ex w.raiseLogged E := by
   unfold World.raiseLogged; exact (h.emit _).raise
 
 /-- An update of one object that keeps its pointer fields, count and liveness. -/
-theorem CountsH.upd_same {w : World} {E : List Id} (h : CountsH w E) (t : Id) (F : Obj → Obj)
-    (hF : fieldsOf (F (w.heap t)) = fieldsOf (w.heap t)) (hrc : (F (w.heap t)).rc = (w.heap t).rc) : CountsH (w.upd t F) E := by
+theorem CountsH.upd_same {w : World} {E : List Id} (h : CountsH ex w E) (t : Id) (F : Obj → Obj)
+    (hF : fieldsOf (F (w.heap t)) = fieldsOf (w.heap t)) (hrc : (F (w.heap t)).rc = (w.heap t).rc) : CountsH ex (w.upd t F) E := by
   apply h.same (fun x => refs_upd_same w t F x hF)
   · intro x; by_cases hx : x = t
     · subst hx; simpa using hrc
@@ -100,53 +102,90 @@ theorem CountsH.upd_same {w : World} {E : List Id} (h : CountsH w E) (t : Id) (F
   · intro x hx; exact Or.inl hx
   · exact h.mfresh
 
-theorem CountsH.removeFromList {w : World} {E : List Id} (h : CountsH w E) (y : Id) : CountsH (w.removeFromList y) E :=
+theorem CountsH.removeFromList {w : World} {E : List Id} (h : CountsH ex w E) (y : Id) : CountsH ex (w.removeFromList y) E :=
   h.same (fun x => by simp) (fun x => by simp) (by simp) (fun f hf => by simpa using hf)
     (fun x hx => Or.inl (pc_removeFromList_sub w y x hx)) (fun x hx => by rw [removeFromList_metas]; exact h.mfresh x hx)
 
-theorem CountsH.addToList {w : World} {E : List Id} (h : CountsH w E) (y : Id) (hy : y < w.next) : CountsH (w.addToList y) E :=
+theorem CountsH.addToList {w : World} {E : List Id} (h : CountsH ex w E) (y : Id) (hy : y < w.next) : CountsH ex (w.addToList y) E :=
   h.same (fun x => by simp) (fun x => by simp) (by simp) (fun f hf => by simpa using hf)
     (fun x hx => by rcases pc_addToList_sub w y x hx with h1 | h1; exact Or.inl h1; exact Or.inr (h1 ▸ hy))
     (fun x hx => by rw [addToList_metas]; exact h.mfresh x hx)
 
-theorem CountsH.dropMetadata {w : World} {E : List Id} (h : CountsH w E) (y : Id) : CountsH (w.dropMetadata y) E :=
+theorem CountsH.dropMetadata {w : World} {E : List Id} (h : CountsH ex w E) (y : Id) : CountsH ex (w.dropMetadata y) E :=
   h.same (fun x => by simp) (fun x => by simp) (by simp) (fun f hf => by simpa using hf)
     (fun x hx => Or.inl (by unfold World.dropMetadata at hx; split at hx <;> (try split at hx) <;> exact hx))
     (acc_of_mono h (dropMetadata_acc w y))
 
-theorem CountsH.initMeta {w : World} {E : List Id} (h : CountsH w E) (y : Id) (hy : y < w.next) : CountsH (w.initMeta y) E :=
+theorem CountsH.initMeta {w : World} {E : List Id} (h : CountsH ex w E) (y : Id) (hy : y < w.next) : CountsH ex (w.initMeta y) E :=
   h.same (fun x => by simp) (fun x => by simp) (by simp) (fun f hf => by simpa using hf)
     (fun x hx => Or.inl (by unfold World.initMeta at hx; split at hx <;> exact hx))
     (fun x hx => by
       have hxy : x ≠ y := fun e => by subst e; exact absurd hy (Nat.not_lt.2 hx)
       rw [initMeta_acc w y x hxy]; exact h.mfresh x hx)
 
-theorem CountsH.weakDrop {w : World} {E : List Id} (h : CountsH w E) (r : WRef) : CountsH (w.weakDrop r) E :=
+theorem CountsH.weakDrop {w : World} {E : List Id} (h : CountsH ex w E) (r : WRef) : CountsH ex (w.weakDrop r) E :=
   h.same (fun x => by simp) (fun x => by simp) (by simp) (fun f hf => by simpa using hf)
     (fun x hx => Or.inl (by unfold World.weakDrop at hx; cases r <;> simp only at hx <;> (try split at hx) <;> exact hx))
     (acc_of_mono h (weakDrop_acc w r))
 
 /-- Releasing a box: its count is reset, so nothing may point to it any more (`hz`: the guard under which
 the code frees — count 0 — or the consumption of the last pointer). -/
-theorem CountsH.freeBox {w : World} {E : List Id} (h : CountsH w E) (y : Id) (hz : refs w y + E.count y = 0) :
-    CountsH (w.freeBox y) E :=
+theorem CountsH.freeBox {w : World} {E : List Id} (h : CountsH ex w E) (y : Id) (hz : refs w y + E.count y = 0) :
+    CountsH ex (w.freeBox y) E :=
   ⟨fun x => by
       rw [freeBox_refs, freeBox_rc]
       by_cases hxy : x = y
       · subst hxy; simp; omega
       · simp [hxy]; exact h.le x,
+   fun hex x => by
+      rw [freeBox_refs, freeBox_rc]
+      by_cases hxy : x = y
+      · subst hxy; simp
+      · simp [hxy]; exact h.ge hex x,
    fun x hx => by rw [freeBox_refs]; exact h.fresh x hx,
    fun f hf i hi => h.frames f hf i hi, fun x hx => h.pcb x hx, h.mfresh⟩
 
-theorem CountsH.freeBox_of_rc {w : World} {E : List Id} (h : CountsH w E) (y : Id) (hz : (w.heap y).rc = 0) :
-    CountsH (w.freeBox y) E :=
+theorem CountsH.freeBox_of_rc {w : World} {E : List Id} (h : CountsH ex w E) (y : Id) (hz : (w.heap y).rc = 0) :
+    CountsH ex (w.freeBox y) E :=
   h.freeBox y (by have := h.le y; omega)
 
+/-- `try_unwrap`: the unique pointer (in flight) is consumed and the box released. -/
+theorem CountsH.consumeFree {w : World} {E : List Id} {y : Id} (h : CountsH ex w (y :: E)) (hrc : (w.heap y).rc = 1) :
+    CountsH ex (w.freeBox y) E := by
+  have hy : y < w.next := h.lt_of_mem (List.mem_cons_self ..)
+  refine ⟨?_, ?_, ?_, fun f hf i hi => h.frames f hf i hi, fun x hx => h.pcb x hx, h.mfresh⟩
+  · intro x
+    rw [freeBox_refs, freeBox_rc]
+    have := h.le x
+    by_cases hxy : x = y
+    · subst hxy; simp [List.count_cons] at this ⊢; omega
+    · have hxy' : ¬ y = x := fun e => hxy e.symm
+      simp [hxy, List.count_cons, hxy'] at this ⊢; exact this
+  · intro hex x
+    rw [freeBox_refs, freeBox_rc]
+    have := h.ge hex x
+    by_cases hxy : x = y
+    · subst hxy; simp
+    · have hxy' : ¬ y = x := fun e => hxy e.symm
+      simp [hxy, List.count_cons, hxy'] at this ⊢; exact this
+  · intro x hx
+    rw [freeBox_refs]
+    have := h.fresh x hx
+    have hxy : ¬ y = x := fun e => by subst e; exact absurd hy (Nat.not_lt.2 hx)
+    simp [List.count_cons, hxy] at this ⊢; omega
+
 /-- `Cc::clone` / successful upgrade: the count goes up, the new pointer is in flight. -/
-theorem CountsH.clone {w : World} {E : List Id} (h : CountsH w E) (y : Id) (hy : y < w.next) : CountsH (w.cloneOk y) (y :: E) := by
-  refine ⟨?_, ?_, ?_, ?_, ?_⟩
+theorem CountsH.clone {w : World} {E : List Id} (h : CountsH ex w E) (y : Id) (hy : y < w.next) : CountsH ex (w.cloneOk y) (y :: E) := by
+  refine ⟨?_, ?_, ?_, ?_, ?_, ?_⟩
   · intro x
     have := h.le x
+    rw [refs_cloneOk, cloneOk_rc, List.count_cons]
+    by_cases hxy : y = x
+    · subst hxy; simp; omega
+    · have hxy' : ¬ x = y := fun e => hxy e.symm
+      simp [hxy, hxy']; omega
+  · intro hex x
+    have := h.ge hex x
     rw [refs_cloneOk, cloneOk_rc, List.count_cons]
     by_cases hxy : y = x
     · subst hxy; simp; omega
@@ -165,9 +204,9 @@ theorem CountsH.clone {w : World} {E : List Id} (h : CountsH w E) (y : Id) (hy :
     rw [hm]; exact h.mfresh x (by simpa using hx)
 
 /-- Dropping a pointer in flight on the path that only decrements. -/
-theorem CountsH.decr {w : World} {E : List Id} {y : Id} (h : CountsH w (y :: E)) : CountsH (w.upd y fun o => { o with rc := o.rc - 1 }) E := by
+theorem CountsH.decr {w : World} {E : List Id} {y : Id} (h : CountsH ex w (y :: E)) : CountsH ex (w.upd y fun o => { o with rc := o.rc - 1 }) E := by
   have hy : y < w.next := h.lt_of_mem (List.mem_cons_self ..)
-  refine ⟨?_, ?_, ?_, ?_, h.mfresh⟩
+  refine ⟨?_, ?_, ?_, ?_, ?_, h.mfresh⟩
   · intro x
     rw [refs_upd_same w y _ x rfl]
     by_cases hxy : y = x
@@ -178,6 +217,16 @@ theorem CountsH.decr {w : World} {E : List Id} {y : Id} (h : CountsH w (y :: E))
       have := h.le x
       simp [List.count_cons, hxy] at this
       simp [upd, Heap.set, hxy']; omega
+  · intro hex x
+    rw [refs_upd_same w y _ x rfl]
+    by_cases hxy : y = x
+    · subst hxy
+      have := h.ge hex y
+      simp [List.count_cons] at this ⊢; omega
+    · have hxy' : ¬ x = y := fun e => hxy e.symm
+      have := h.ge hex x
+      simp [List.count_cons, hxy] at this
+      simp [upd, Heap.set, hxy']; omega
   · intro x hx
     have := h.fresh x hx
     rw [refs_upd_same w y _ x rfl]
@@ -186,18 +235,23 @@ theorem CountsH.decr {w : World} {E : List Id} {y : Id} (h : CountsH w (y :: E))
   · exact h.pcb
 
 /-- Storing a pointer in flight in a free table entry. -/
-theorem CountsH.putTable {w : World} {E : List Id} {y : Id} (h : CountsH w (y :: E)) {k : Nat}
-    (hnone : w.getH k = none) (hk : k < w.H.length) : CountsH (w.setH k (some y)) E := by
+theorem CountsH.putTable {w : World} {E : List Id} {y : Id} (h : CountsH ex w (y :: E)) {k : Nat}
+    (hnone : w.getH k = none) (hk : k < w.H.length) : CountsH ex (w.setH k (some y)) E := by
   have e : ∀ x, refs (w.setH k (some y)) x = refs w x + [y].count x := by
     intro x
     have := refs_setH w k (some y) x hk
     rw [hnone] at this
     simpa using this
-  refine ⟨?_, ?_, h.frames, h.pcb, h.mfresh⟩
+  refine ⟨?_, ?_, ?_, h.frames, h.pcb, h.mfresh⟩
   · intro x
     have hh : (w.setH k (some y)).heap x = w.heap x := rfl
     rw [hh]
     have := h.le x
+    rw [e]; simp [List.count_cons] at this ⊢; omega
+  · intro hex x
+    have hh : (w.setH k (some y)).heap x = w.heap x := rfl
+    rw [hh]
+    have := h.ge hex x
     rw [e]; simp [List.count_cons] at this ⊢; omega
   · intro x hx
     have hx' : w.next ≤ x := hx
@@ -207,8 +261,8 @@ theorem CountsH.putTable {w : World} {E : List Id} {y : Id} (h : CountsH w (y ::
     omega
 
 /-- Taking a pointer out of a table entry: it is in flight. -/
-theorem CountsH.takeTable {w : World} {E : List Id} {y : Id} (h : CountsH w E) {k : Nat}
-    (hsome : w.getH k = some y) : CountsH (w.setH k none) (y :: E) := by
+theorem CountsH.takeTable {w : World} {E : List Id} {y : Id} (h : CountsH ex w E) {k : Nat}
+    (hsome : w.getH k = some y) : CountsH ex (w.setH k none) (y :: E) := by
   have hk : k < w.H.length := by
     cases Nat.lt_or_ge k w.H.length with
     | inl h => exact h
@@ -218,11 +272,17 @@ theorem CountsH.takeTable {w : World} {E : List Id} {y : Id} (h : CountsH w E) {
     have := refs_setH w k none x hk
     rw [hsome] at this
     simpa using this
-  refine ⟨?_, ?_, h.frames, h.pcb, h.mfresh⟩
+  refine ⟨?_, ?_, ?_, h.frames, h.pcb, h.mfresh⟩
   · intro x
     have hh : (w.setH k none).heap x = w.heap x := rfl
     rw [hh]
     have h1 := h.le x
+    have h2 := e x
+    simp [List.count_cons] at h2 ⊢; omega
+  · intro hex x
+    have hh : (w.setH k none).heap x = w.heap x := rfl
+    rw [hh]
+    have h1 := h.ge hex x
     have h2 := e x
     simp [List.count_cons] at h2 ⊢; omega
   · intro x hx
@@ -233,13 +293,18 @@ theorem CountsH.takeTable {w : World} {E : List Id} {y : Id} (h : CountsH w E) {
     omega
 
 /-- Pushing a frame: the pointers it holds leave the in-flight list. -/
-theorem CountsH.pushFrame {w : World} {E : List Id} (f : Frame) (h : CountsH w (f.holds ++ E))
-    (hids : ∀ i ∈ f.ids, i < w.next) : CountsH (w.push f) E := by
-  refine ⟨?_, ?_, ?_, h.pcb, h.mfresh⟩
+theorem CountsH.pushFrame {w : World} {E : List Id} (f : Frame) (h : CountsH ex w (f.holds ++ E))
+    (hids : ∀ i ∈ f.ids, i < w.next) : CountsH ex (w.push f) E := by
+  refine ⟨?_, ?_, ?_, ?_, h.pcb, h.mfresh⟩
   · intro x
     have hh : (w.push f).heap x = w.heap x := rfl
     rw [hh]
     have := h.le x
+    rw [refs_push]; simp [List.count_append] at this; omega
+  · intro hex x
+    have hh : (w.push f).heap x = w.heap x := rfl
+    rw [hh]
+    have := h.ge hex x
     rw [refs_push]; simp [List.count_append] at this; omega
   · intro x hx
     have hx' : w.next ≤ x := hx
@@ -284,10 +349,10 @@ theorem setSlot_rc (o : Obj) (s : Slot) (v) : (setSlot o s v).rc = o.rc ∧ (set
 /-- Generic field update: `F` changes the pointer fields of `t` from (… + `out`) to (… + `inn`), keeps count and liveness:
 the `inn` pointers come from the in-flight list, the `out` pointers go there. -/
 theorem CountsH.updFields {w : World} {E : List Id} (t : Id) (F : Obj → Obj) (inn out : List Id)
-    (h : CountsH w (inn ++ E)) (ht : t < w.next)
+    (h : CountsH ex w (inn ++ E)) (ht : t < w.next)
     (hF : ∀ x, (fieldsOf (F (w.heap t))).count x + out.count x = (fieldsOf (w.heap t)).count x + inn.count x)
     (hrc : (F (w.heap t)).rc = (w.heap t).rc) (hbl : (F (w.heap t)).boxLive = (w.heap t).boxLive) :
-    CountsH (w.upd t F) (out ++ E) := by
+    CountsH ex (w.upd t F) (out ++ E) := by
   have e : ∀ x, refs (w.upd t F) x + out.count x = refs w x + inn.count x := by
     intro x
     have h1 := refs_upd w t F x ht
@@ -298,9 +363,15 @@ theorem CountsH.updFields {w : World} {E : List Id} (t : Id) (F : Obj → Obj) (
     by_cases hx : x = t
     · subst hx; simp [hrc, hbl]
     · simp [upd, Heap.set, hx]
-  refine ⟨?_, ?_, h.frames, h.pcb, h.mfresh⟩
+  refine ⟨?_, ?_, ?_, h.frames, h.pcb, h.mfresh⟩
   · intro x
     have h1 := h.le x
+    have h2 := e x
+    rw [(hheap x).1]
+    simp only [List.count_append] at h1 ⊢
+    omega
+  · intro hex x
+    have h1 := h.ge hex x
     have h2 := e x
     rw [(hheap x).1]
     simp only [List.count_append] at h1 ⊢
@@ -313,18 +384,18 @@ theorem CountsH.updFields {w : World} {E : List Id} (t : Id) (F : Obj → Obj) (
     omega
 
 /-- Storing a pointer in flight in a field (the previous content goes in flight). -/
-theorem CountsH.putField {w : World} {E : List Id} {y : Id} (h : CountsH w (y :: E)) {t : Id} (ht : t < w.next)
+theorem CountsH.putField {w : World} {E : List Id} {y : Id} (h : CountsH ex w (y :: E)) {t : Id} (ht : t < w.next)
     {s : Slot} {old : Option Id} (hs : getSlot (w.heap t) s = some old) :
-    CountsH (w.upd t fun o => setSlot o s (some y)) (old.toList ++ E) := by
+    CountsH ex (w.upd t fun o => setSlot o s (some y)) (old.toList ++ E) := by
   apply CountsH.updFields t _ [y] old.toList (by simpa using h) ht
   · intro x; have := fieldsOf_setSlot_count (w.heap t) s (some y) old x hs; simpa using this
   · exact (setSlot_rc _ _ _).1
   · exact (setSlot_rc _ _ _).2
 
 /-- Emptying a field: its pointer goes in flight. -/
-theorem CountsH.clearField {w : World} {E : List Id} (h : CountsH w E) {t : Id} (ht : t < w.next)
+theorem CountsH.clearField {w : World} {E : List Id} (h : CountsH ex w E) {t : Id} (ht : t < w.next)
     {s : Slot} {y : Id} (hs : getSlot (w.heap t) s = some (some y)) :
-    CountsH (w.upd t fun o => setSlot o s none) (y :: E) := by
+    CountsH ex (w.upd t fun o => setSlot o s none) (y :: E) := by
   have := CountsH.updFields t (fun o => setSlot o s none) [] [y] (by simpa using h) ht
     (by intro x; have := fieldsOf_setSlot_count (w.heap t) s none (some y) x hs; simpa using this)
     (setSlot_rc _ _ _).1 (setSlot_rc _ _ _).2
